@@ -3,7 +3,7 @@ import steps_C13
 
 ID = "C13"
 PROP = {
-    "modules": ["Gnmi.Props.C13"],
+    "modules": ["Gnmi.Props.C13", "Gnmi.Props.C13Prog"],
     "theorems": ["Gnmi.C13." + t for t in [
         "trace_in_discipline", "trace_state", "trace_shape", "attempt_trace_facts", "attempt_trace_connect", "updates_in_stream_order", "exec_reachable", "reconnect_effective",
         "silence_after_remove", "silent_step", "remove_unregisters", "one_monitor_per_name",
@@ -11,7 +11,14 @@ PROP = {
         "retry_forever", "monitor_alive", "timer_pending", "timeout_pending",
         "add_remove_guard", "add_guard", "remove_guard", "reconnect_guard"]] + [
         "Gnmi.Manager.inv_init", "Gnmi.Manager.inv_step", "Gnmi.Manager.shape_step",
-        "Gnmi.Manager.monNext_sound", "Gnmi.Manager.applyMove_sound"],
+        "Gnmi.Manager.monNext_sound", "Gnmi.Manager.applyMove_sound"] + ["Gnmi.C13Prog." + t for t in [
+        "MonRun.toRun", "MonRun.facts", "OwnStep.step", "OwnRun.toRun",
+        "attempt_progress", "next_attempt_reached", "next_attempt_reached_over",
+        "recv_cancelled_reset", "release_lock", "cancelled_forces_reset", "reconnect_held_forces_reset",
+        "reconnect_forces_reset", "timeout_forces_reset", "recon_pending_stable", "timeout_armed_stable", "tmoOK_reach",
+        "reset_exactly_once",
+        "managed_not_terminal", "managed_not_terminal_of", "managed_not_terminal_needs_hyp",
+        "managed_between", "one_more_attempt", "retry_forever_run"]],
     "components": [
         {"c": "mg", "quick": {"n": 120, "exhaustive": True}, "thorough": {"n": 1000, "exhaustive": True, "seeds": 3}},
     ],
@@ -26,7 +33,7 @@ PROP = {
                     "user callbacks terminate and do not call back into the Manager",
                     "backoff delays are positive (cenkalti/backoff)"],
     "manifest": {
-        "level_text": "Lean 4 theorems about a labelled transition system of manager.go (retryMonitor / monitor / handleUpdates program counters, Add / Remove / Reconnect callers, receive-timeout goroutine, the manager mutex) for every environment script and every interleaving; tied to the code by a correspondence check that drives the real manager.Manager over bufconn gRPC links to a scripted gNMI server and compares callback traces with the model's sequential schedule.",
+        "level_text": "Lean 4 theorems about a labelled transition system of manager.go (retryMonitor / monitor / handleUpdates program counters, Add / Remove / Reconnect callers, receive-timeout goroutine, the manager mutex) for every environment script and every interleaving; tied to the code by a correspondence check that drives the real manager.Manager over bufconn gRPC links to a scripted gNMI server and compares callback traces with the model's sequential schedule. Progress is proved in run form (Props/C13Prog.lean): an attempt is a finite path of the goroutine's own steps to the next attempt; a fired receive timeout / forced Reconnect leads to exactly one Reset and a new attempt (exactly one under every schedule); a managed target has an enabled step of its own except when it legitimately waits on a silent stream without receive timeout; n further attempts for every n.",
         "level_note": "Proof of the protocol LTS; real timers/gRPC are exercised, not proved. Trusted: Lean kernel, the hand-written LTS as validated by the mg correspondence, Go runtime, gRPC.",
         "technique": "Lean 4 proof (inductive invariant of an LTS) + scripted-collaborator correspondence on the real goroutines",
         "design_ref": "DESIGN.md §8 C13, Appendix E.3",
